@@ -47,32 +47,33 @@ type Sweep struct {
 }
 
 type SpecDB struct {
-	contracts    map[string]*Contract // by target full name
-	units        []*Contract          // all contract + lemma functions
-	sweeps       []*Sweep
-	pure         map[string]bool
-	uninterp     map[string]bool
-	guards       map[string]map[int]int // struct type key -> field index -> mutex field index
-	invariants   map[string][]*ssa.Function
-	loopAnns     map[string]*LoopAnn // "fn#ordinal"
-	inlineExts   []string
-	pureExts     map[string]bool
-	nullable     map[string]bool
-	errors       []string
-	files        []string
-	lockCache    map[*ssa.Function]bool
-	tables       map[string]bool
-	effectFree   map[string]bool
-	noblock      []*Sweep
-	fieldFns     map[string]*ssa.Function // field array name -> spec function standing for calls through that func-typed field
-	getters      map[string]bool
-	detFns       map[string]bool
-	guardSubs    map[string]map[int]bool
-	lockHeld     map[string]string // function -> mutex field of its receiver that callers hold
-	stubs        map[string]*ssa.Function
-	assumeAssert map[string]bool
-	dynCalls     map[string]*ssa.Function // "fn#k" -> spec function for the k-th dynamic call in fn
-	curProps     []string
+	contracts      map[string]*Contract // by target full name
+	units          []*Contract          // all contract + lemma functions
+	sweeps         []*Sweep
+	pure           map[string]bool
+	uninterp       map[string]bool
+	guards         map[string]map[int]int // struct type key -> field index -> mutex field index
+	invariants     map[string][]*ssa.Function
+	loopAnns       map[string]*LoopAnn // "fn#ordinal"
+	inlineExts     []string
+	pureExts       map[string]bool
+	nullable       map[string]bool
+	errors         []string
+	files          []string
+	lockCache      map[*ssa.Function]bool
+	tables         map[string]bool
+	effectFree     map[string]bool
+	noblock        []*Sweep
+	fieldFns       map[string]*ssa.Function // field array name -> spec function standing for calls through that func-typed field
+	getters        map[string]bool
+	detFns         map[string]bool
+	guardSubs      map[string]map[int]bool
+	dynCallsAlways map[string]bool
+	lockHeld       map[string]string // function -> mutex field of its receiver that callers hold
+	stubs          map[string]*ssa.Function
+	assumeAssert   map[string]bool
+	dynCalls       map[string]*ssa.Function // "fn#k" -> spec function for the k-th dynamic call in fn
+	curProps       []string
 }
 
 func expandName(s string) string {
@@ -134,7 +135,8 @@ func (db *SpecDB) detExt(fn *ssa.Function) bool {
 	// read-only for the code under contract)
 	switch fn.String() {
 	case "(*net/http.Request).BasicAuth", "(net/http.Header).Get", "(*net/http.Request).Context", "(*net/http.Request).UserAgent",
-		"(net/http.Header).Values", "(*encoding/base64.Encoding).EncodeToString", "(*encoding/base64.Encoding).DecodeString", "(*net/url.URL).Hostname", "(*net/url.URL).Port", "(*net/url.URL).String", "(net.IP).String", "(net.IP).To4":
+		"(net/http.Header).Values", "(*encoding/base64.Encoding).EncodeToString", "(*encoding/base64.Encoding).DecodeString", "(*net/url.URL).Hostname", "(*net/url.URL).Port", "(*net/url.URL).String", "(net.IP).String", "(net.IP).To4",
+		"(time.Time).IsZero", "(time.Time).After", "(time.Time).Before", "(time.Time).Equal", "(time.Time).Add", "(time.Time).Sub":
 		return true
 	}
 	switch pp {
@@ -401,6 +403,12 @@ func (db *SpecDB) readFile(prog *ssa.Program, p *packages.Package, spkg *ssa.Pac
 				// dyncall <target> <k>: this function specifies the k-th dynamic call in target
 				if len(dir) >= 3 {
 					db.dynCalls[expandName(dir[1])+"#"+dir[2]] = fn
+					if len(dir) >= 4 && dir[3] == "always" {
+						if db.dynCallsAlways == nil {
+							db.dynCallsAlways = map[string]bool{}
+						}
+						db.dynCallsAlways[expandName(dir[1])] = true
+					}
 				}
 			case "fieldfn":
 				// fieldfn <TypeName> <field>: this function specifies calls through that func-typed field
@@ -723,6 +731,17 @@ func findMethodSig(prog *ssa.Program, name string) *types.Signature {
 		}
 	}
 	return nil
+}
+
+// dynCallOverrides: the dynamic call site has a specification function that is
+// to be used even when the callee happens to be known on this path (a callback
+// parameter of a generic driver loop: the driver is verified against the
+// callback's specification, not against one particular callback).
+func (db *SpecDB) dynCallOverrides(site ssa.Instruction) bool {
+	if site == nil || site.Parent() == nil || len(db.dynCallsAlways) == 0 {
+		return false
+	}
+	return db.dynCallsAlways[site.Parent().String()] && db.dynCallSpec(site) != nil
 }
 
 // dynCallSpec: specification function for a dynamic call site, if declared.
